@@ -969,7 +969,9 @@ ssize_t qlisttbl_load(qlisttbl_t *tbl, const char *filepath, char sepchar,
         if (decode == true) qurl_decode(data);
 
         // add to the table.
-        qlisttbl_put(tbl, name, data, strlen(data) + 1);
+        if (qlisttbl_put(tbl, name, data, strlen(data) + 1) == true) {
+            cnt++;
+        }
 
         free(name);
         free(data);
